@@ -1,0 +1,30 @@
+//go:build verif
+
+package gocvss40
+
+// Verification hooks: compiled only with the build tag "verif".
+// They add read/construct access to the packed representation and to a few
+// unexported helpers; no existing code is changed.
+
+// VerifBytes returns the packed representation of c.
+func VerifBytes(c *CVSS40) [9]uint8 { return [9]uint8{c.u0, c.u1, c.u2, c.u3, c.u4, c.u5, c.u6, c.u7, c.u8} }
+
+// VerifFromBytes builds an object from a packed representation (any bytes).
+func VerifFromBytes(b [9]uint8) *CVSS40 { return &CVSS40{u0: b[0], u1: b[1], u2: b[2], u3: b[3], u4: b[4], u5: b[5], u6: b[6], u7: b[7], u8: b[8]} }
+
+// VerifLenVec exposes lenVec, the pre-computed length used by Vector.
+func VerifLenVec(c *CVSS40) int { return lenVec(c) }
+
+// VerifRoundup exposes roundup.
+func VerifRoundup(x float64) float64 { return roundup(x) }
+
+// VerifMacroVector exposes macroVector.
+func VerifMacroVector(c *CVSS40) [6]int {
+	a, b, cc, d, e, f := c.macroVector()
+	return [6]int{a, b, cc, d, e, f}
+}
+
+// VerifLookupMV exposes lookupMV.
+func VerifLookupMV(eq1, eq2, eq3, eq4, eq5, eq6 int) float64 {
+	return lookupMV(eq1, eq2, eq3, eq4, eq5, eq6)
+}
